@@ -151,7 +151,7 @@ def py_eval(e, env):
     k = e[0]
     if k in ("add", "sub", "mul", "div"):
         a, b = py_eval(e[1], env), py_eval(e[2], env)
-        return {"add": a + b, "sub": a - b, "mul": a * b, "div": a / b}[k]
+        return a + b if k == "add" else a - b if k == "sub" else a * b if k == "mul" else a / b
     if k == "neg":
         return -py_eval(e[1], env)
     if k == "pow":
